@@ -780,6 +780,23 @@ class TriInterp:
                                                     q.bytes))
                         else:
                             res.append((q, UNK))
+                    elif base.kind == "constseq" and idx.kind == "byte":
+                        n_ = len(base.val)
+                        hit = {b for b in q.bytes if b < n_}
+                        miss = q.bytes - hit
+                        if hit:
+                            res.append((q.fork(hit), STR if all(
+                                isinstance(base.val[b], str) for b in hit)
+                                else UNK))
+                        if miss:
+                            outs.append(Outcome("raise", "IndexError", miss))
+                    elif base.kind == "constseq" and idx.kind == "const" \
+                            and isinstance(idx.val, int):
+                        if -len(base.val) <= idx.val < len(base.val):
+                            res.append((q, self.lift(base.val[idx.val])))
+                        else:
+                            outs.append(Outcome("raise", "IndexError",
+                                                q.bytes))
                     else:
                         res.append((q, UNK))
             return res
